@@ -591,25 +591,33 @@ def ethOfText (s : Str) : Except Err Bytes :=
       ethBytesOfHex parts.flatten
   else .error .runtime
 
+/-- the loose form after `fixes/C16_eth_text.diff`: exactly six colon-separated groups of one or two hex digits, each
+    re-printed with two digits -/
+def ethLooseHexS (s : Str) : Except Err Str :=
+  let groups := splitOn ':' s
+  if groups.length ≠ 6 ∨ groups.all (isHexStr 1 2) = false then .error .runtime
+  else do
+    let parts ← groups.mapM fun x => (pyInt 16 x).map fmt02x
+    pure parts.flatten
+
+/-- the added check that the twelve characters are hex digits, then line 127 -/
+def ethFinishS (hex12 : Str) : Except Err Bytes :=
+  if hex12.all (fun c => decide (digitVal c < 16)) then ethBytesOfHex hex12 else .error .runtime
+
 /-- `EthAddr(str)` after `fixes/C16_eth_text.diff`: twelve bare digits only when there is no colon, the loose form only
     with six groups of one or two hex digits, and in every form the twelve digits must be hex digits -/
 def ethOfTextS (s : Str) : Except Err Bytes :=
   let n := s.length
   if n = 6 then .ok (s.map fun c => UInt8.ofNat c.toNat)
-  else if n = 17 ∨ n = 12 ∨ s.count ':' = 5 then do
-    let hex12 ←
-      if n = 17 then
-        let seps := [2, 5, 8, 11, 14].filterMap fun i => s[i]?
-        if seps ≠ [':', ':', ':', ':', ':'] ∧ seps ≠ ['-', '-', '-', '-', '-'] then .error .runtime
-        else pure ((List.range 6).flatMap fun x => slice s (x * 3) (x * 3 + 2))
-      else if n = 12 ∧ has ':' s = false then pure s
-      else
-        let groups := splitOn ':' s
-        if groups.length ≠ 6 ∨ groups.all (isHexStr 1 2) = false then .error .runtime
-        else do
-          let parts ← groups.mapM fun x => (pyInt 16 x).map fmt02x
-          pure parts.flatten
-    if hex12.all (fun c => decide (digitVal c < 16)) then ethBytesOfHex hex12 else .error .runtime
+  else if n = 17 ∨ n = 12 ∨ s.count ':' = 5 then
+    if n = 17 then
+      let seps := [2, 5, 8, 11, 14].filterMap fun i => s[i]?
+      if seps ≠ [':', ':', ':', ':', ':'] ∧ seps ≠ ['-', '-', '-', '-', '-'] then .error .runtime
+      else ethFinishS ((List.range 6).flatMap fun x => slice s (x * 3) (x * 3 + 2))
+    else if n = 12 ∧ has ':' s = false then ethFinishS s
+    else do
+      let hex12 ← ethLooseHexS s
+      ethFinishS hex12
   else .error .runtime
 
 /-- `EthAddr(list / tuple / bytearray)` (134-139): `bytes(addr)` — every element must be in `range(256)` (ValueError
